@@ -412,7 +412,7 @@ class RunIfOutOfBounds(Algo):
                     return True
 
         if "cash" in target.temp:
-            cash_deviation = abs((target.capital - targets.value) / targets.value - target.temp["cash"])
+            cash_deviation = abs(target.capital / target.value - target.temp["cash"])
             if cash_deviation > self.tolerance:
                 return True
 
